@@ -481,11 +481,21 @@ def judge_iterations(ctx, runs, iters, st):
     bad = None
     if todo:
         ans = relay.run_model(ctx, ["xpoll"], "".join(c[2] + "\n" for c in todo))
+        # the ORDER of the two handler calls of one iteration is the code's choice (the properties hold for both:
+        # C05.one_iteration_stdout_before_stderr / _swapped_stderr_first): learnt from the first poll return of the
+        # run that reports both descriptors, then required of every other one (`XPoll.Iter.calls errFirst`)
+        if "handler_order" not in st:
+            for c, a in zip(todo, ans):
+                if a.split()[1:2] == ["oe"] and "".join(c[3]) in ("oe", "eo"):
+                    st["handler_order"] = "".join(c[3])
+                    break
+        if st.get("handler_order") == "eo":
+            ans = relay.run_model(ctx, ["xpoll"], "".join(c[2] + " 1\n" for c in todo))
         for c, a in zip(todo, ans):
             w = a.split()
             exp = "" if len(w) < 2 or w[1] == "-" else w[1]
             got = "".join(c[3])
-            st["poll_both_reported"] = st.get("poll_both_reported", 0) + (exp == "oe")
+            st["poll_both_reported"] = st.get("poll_both_reported", 0) + (len(exp) == 2)
             if got == exp or (c[4] and c[6] and exp.startswith(got)):
                 continue
             bad = bad or (c, "after the poll return `%s` the worker read %s, the model (XPoll.loopIter: %s) calls the "
